@@ -13,7 +13,7 @@ import random
 
 from vlib import corpus, e2e, engine, gen, netsynth as ns, outparse, quicsynth, scene, tcpcap, tlssynth
 
-KINDS = ["delete", "cut", "keys", "keys-cut", "cbc-pad", "flip-hello", "wrongkeys", "suite", "flip", "overwrite", "shorten", "snap", "noise-http", "noise-udp", "noise-udp-short"]
+KINDS = ["delete", "cut", "keys", "keys-cut", "cbc-pad", "flip-hello", "wrongkeys", "suite", "flip", "overwrite", "shorten", "snap", "stale", "noise-http", "noise-udp", "noise-udp-short"]
 UNKNOWN_SUITES = [0x0A0A, 0x0000, 0xFFFF, 0xC03C, 0x0001, 0x1306, 0x5600, 0xFAFA]
 
 
@@ -288,6 +288,18 @@ def eval_case(case, seed, thorough):
                     for bit in range(8):
                         newit = reframe(items[first], vep, lambda p_, j=j, bit=bit: p_[:j] + bytes([p_[j] ^ (1 << bit)]) + p_[j + 1:])
                         faults.append((f"bit {bit} of byte {j} of the victim's {'ClientHello' if d_ == 'c' else 'ServerHello'} segment flipped", items[:first] + [newit] + items[first + 1:], keys, [], "ab"))
+        elif victim.kind == "quic" and (thorough or case["scene"] % 3 != 2):
+            # the same for QUIC: every bit of the invariant part of the long headers of the victim's first datagrams - first octet (form, fixed bit, type), the four
+            # version octets (one flipped bit turns version 1 into version 0, a Version Negotiation packet, in the middle of a handshake), the DCID length and the first
+            # DCID octet.  The datagrams that follow the damaged one find whatever state it left behind
+            longs = [i for i in vidx if items[i].seg.data and items[i].seg.data[0] & 0x80][:5 if thorough else 3]
+            for i in longs:
+                for j in range(0, 7):
+                    for bit in range(8):
+                        if not thorough and j not in (0, 4) and (bit + j + i) % 3:
+                            continue
+                        newit = reframe(items[i], vep, lambda p_, j=j, bit=bit: p_[:j] + bytes([p_[j] ^ (1 << bit)]) + p_[j + 1:] if len(p_) > j else p_)
+                        faults.append((f"bit {bit} of octet {j} of the long header of the victim's datagram {vidx.index(i)} flipped", items[:i] + [newit] + items[i + 1:], keys, [], "ab"))
     elif kind in ("flip", "overwrite", "shorten"):
         hs_idx = vidx[:4]
         for rep in range(40 if thorough else 14):
@@ -349,6 +361,17 @@ def eval_case(case, seed, thorough):
                         newit = reframe(items[i], vep, lambda pl, j=j, val=val: pl[:j] + bytes([val]) + pl[j + 1:])
                         faults.append((f"byte before the last cipher block of the victim's protected {e.kind} record ({'client' if e.dir == 'c' else 'server'}, {len(e.wire)} bytes on the wire"
                                        f"{', EtM' if tail else ''}) overwritten: {orig:#04x} -> {val:#04x}", items[:i] + [newit] + items[i + 1:], keys, [], "ab"))
+    elif kind == "stale":
+        # traffic that adds nothing: TCP keep-alive probes (one octet in front of SND.NXT: garbage, zero, or the last octet again) on an idle victim and retransmissions
+        # that start inside an earlier segment.  Whatever the reassembly makes of them, the run completes, the bystanders are untouched and the victim exports at
+        # most a prefix of what it sent
+        if victim.kind == "tls":
+            for rep in range(24 if thorough else 8):
+                st = scene.stale_item(items, vep, frng, conn=0, kind=["keepalive-garbage", "keepalive-zero", "keepalive-last", "offset"][rep % 4])
+                if st:
+                    its = list(items[:st[0]]) + [st[1]] + list(items[st[0]:])
+                    scene.stamp(its, random.Random(rep), "plain")
+                    faults.append((st[2], its, keys, [], "prefix-rebased"))
     elif kind == "noise-http":
         for rep in range(3):
             nf = scene.http_on_443(frng, rep, v6=frng.random() < 0.5)
